@@ -784,12 +784,43 @@ let c01 = function
     end
   | _ -> "FAIL malformed case"
 
+(* C29 *)
+let c29 = function
+  | [L evs; sched; L log; alive] ->
+    let cls = function A "TSyncErr" -> Diagnostics.TSyncErr | A "TBgErr" -> Diagnostics.TBgErr | A "TBgWarn" -> Diagnostics.TBgWarn | _ -> Diagnostics.TOk in
+    let dg = function A "DOk" -> Diagnostics.DOk | A "DSyncErr" -> Diagnostics.DSyncErr | A "DBgErr" -> Diagnostics.DBgErr | _ -> Diagnostics.DBgWarn in
+    let evs' = Stdlib.List.map (function
+        | L [A "open"; v; c] -> Diagnostics.Open (n_of_int (int_of_sx v), cls c)
+        | L [A "change"; v; c] -> Diagnostics.Change (n_of_int (int_of_sx v), cls c)
+        | _ -> failwith "event") evs in
+    let sched' = Stdlib.List.map nat_of_int (ints_of_sx sched) in
+    let real = Stdlib.List.map (function L [v; d] -> (n_of_int (int_of_sx v), dg d) | _ -> failwith "log") log in
+    if int_of_sx alive = 0 then "FAIL key=server-died the server died during the history"
+    else begin
+      match Diagnostics.run evs' sched' with
+      | None -> "FAIL key=schedule-not-enabled the harness schedule is not a run of the model"
+      | Some mlog ->
+        let expected = Diagnostics.expected evs' in
+        let last = (match Stdlib.List.rev real with [] -> None | x :: _ -> Some x) in
+        let nver = Stdlib.List.length evs' in
+        let outstanding_at_edit = Stdlib.List.length evs' >= 2 in
+        if mlog <> real then "FAIL key=log-differs-from-model the sequence of published diagnostics differs from the model run of the same schedule"
+        else if last <> expected then
+          (match last, expected with
+           | Some (v, _), Some (v', _) when int_of_n v < int_of_n v' ->
+             "FAIL key=stale-version-published-last the last published diagnostics belong to an older document version (a background analysis of an earlier text finished after a later edit)"
+           | _ -> "FAIL key=final-diagnostics-wrong the last published diagnostics are not those of the final text")
+        else Printf.sprintf "OK %d versions-%d" (if outstanding_at_edit then 1 else 0) nver
+    end
+  | _ -> "FAIL malformed case"
+
 let dispatch (sx : Sexp.t) : string =
   match sx with
   | L (A "lev" :: args) -> c31 args
   | L (A "eval" :: args) -> c08 args
   | L (A "aug" :: args) -> c12 args
   | L (A "wf" :: args) -> c11 args
+  | L (A "diag" :: args) -> c29 args
   | L (A "ll" :: args) -> c01 args
   | L (A "p2o" :: args) -> c30_p2o args
   | L (A "mode" :: args) -> c16_mode args
